@@ -4,6 +4,7 @@ use crate::source::Content;
 use crate::{Doc, Language, Node, StrDoc};
 use std::borrow::Cow;
 use std::collections::HashMap;
+use std::sync::Arc;
 
 use crate::replacer::formatted_slice;
 
@@ -15,7 +16,8 @@ type Underlying<D> = Vec<<<D as Doc>::Source as Content>::Underlying>;
 #[derive(Clone)]
 pub struct MetaVarEnv<'tree, D: Doc> {
   single_matched: HashMap<MetaVariableID, Node<'tree, D>>,
-  multi_matched: HashMap<MetaVariableID, Vec<Node<'tree, D>>>,
+  // shared: an env is copied for every trial match, the captured lists can be long
+  multi_matched: HashMap<MetaVariableID, Arc<Vec<Node<'tree, D>>>>,
   transformed_var: HashMap<MetaVariableID, Underlying<D>>,
 }
 
@@ -39,7 +41,7 @@ impl<'tree, D: Doc> MetaVarEnv<'tree, D> {
 
   pub fn insert_multi(&mut self, id: &str, ret: Vec<Node<'tree, D>>) -> Option<&mut Self> {
     if self.match_multi_var(id, &ret) {
-      self.multi_matched.insert(id.to_string(), ret);
+      self.multi_matched.insert(id.to_string(), Arc::new(ret));
       Some(self)
     } else {
       None
@@ -65,7 +67,11 @@ impl<'tree, D: Doc> MetaVarEnv<'tree, D> {
   }
 
   pub fn get_multiple_matches(&self, var: &str) -> Vec<Node<'tree, D>> {
-    self.multi_matched.get(var).cloned().unwrap_or_default()
+    self
+      .multi_matched
+      .get(var)
+      .map(|nodes| nodes.to_vec())
+      .unwrap_or_default()
   }
 
   pub fn get_transformed(&self, var: &str) -> Option<&Underlying<D>> {
@@ -79,15 +85,12 @@ impl<'tree, D: Doc> MetaVarEnv<'tree, D> {
   }
 
   pub fn add_label(&mut self, label: &str, node: Node<'tree, D>) {
-    self
-      .multi_matched
-      .entry(label.into())
-      .or_default()
-      .push(node);
+    let nodes = self.multi_matched.entry(label.into()).or_default();
+    Arc::make_mut(nodes).push(node);
   }
 
   pub fn get_labels(&self, label: &str) -> Option<&Vec<Node<'tree, D>>> {
-    self.multi_matched.get(label)
+    self.multi_matched.get(label).map(|nodes| &**nodes)
   }
 
   pub fn get_matched_variables(&self) -> impl Iterator<Item = MetaVariable> + '_ {
@@ -176,7 +179,7 @@ impl<'tree, D: Doc> MetaVarEnv<'tree, D> {
       f(n)
     }
     for ns in self.multi_matched.values_mut() {
-      for n in ns {
+      for n in Arc::make_mut(ns) {
         f(n)
       }
     }
